@@ -41,6 +41,7 @@ fn is_target_resp(cfg: &Cfg, r: &Response) -> bool {
 struct RoundTruth {
     sent: Vec<(u16, u8, SendO, u64)>,                     // seq, ttl, outcome, sent time
     answered: HashMap<u16, (IpAddr, u64, String, u64)>,   // seq -> host, recv, kind, sent
+    answered_exts: HashMap<u16, String>,                  // seq -> the extensions the genuine response carried (canonical text)
     target_answered: bool,
     last_genuine_recv: Option<u64>,
     start: u64,
@@ -126,6 +127,11 @@ pub fn evaluate(cfg: &Cfg, out: &RunOut, truth: Option<&Truth>, stable_path: boo
                         if rnd == round_idx && sent.is_some() && !cur.answered.contains_key(&seq) {
                             let (host, recv, kind) = resp_parts(r);
                             cur.answered.insert(seq, (host, recv, kind, sent.unwrap().3));
+                            let e = match r {
+                                Response::TimeExceeded(_, _, e) | Response::DestinationUnreachable(_, _, e) => crate::strat::opt_exts(e),
+                                _ => "-".to_string(),
+                            };
+                            cur.answered_exts.insert(seq, e);
                             cur.last_genuine_recv = Some(recv);
                             if is_target_resp(cfg, r) {
                                 cur.target_answered = true;
@@ -177,6 +183,14 @@ pub fn evaluate(cfg: &Cfg, out: &RunOut, truth: Option<&Truth>, stable_path: boo
                                     let k = crate::strat::render_icmp(&c.icmp_packet_type);
                                     if c.host != *host || vclock::to_ns(c.received) != *recv || k != *kind {
                                         fail("C01", format!("round {round_idx}: probe {seq} complete with host {}/{}/{k}, truth {host}/{recv}/{kind}", c.host, vclock::to_ns(c.received)));
+                                    }
+                                    // C14 / C01: the extensions of the genuine response reach the published round unchanged
+                                    let got = crate::strat::opt_exts(&c.extensions);
+                                    if let Some(want) = cur.answered_exts.get(seq) {
+                                        if got != *want {
+                                            fail("C14", format!("round {round_idx}: probe {seq} complete with extensions {got}, the response carried {want}"));
+                                            fail("C01", format!("round {round_idx}: probe {seq} complete with extensions {got}, the response carried {want}"));
+                                        }
                                     }
                                 }
                             }
